@@ -156,6 +156,20 @@ impl World {
                         std::io::Seek::rewind(&mut f).map_err(|e| e.to_string())?;
                         m.read_exact_volatile_from(GuestAddress(r.start), &mut bf, n).map_err(|e| format!("owner {}: region {} could not be filled from a file: {:?}", oi, rid, e))?;
                     }
+                    if r.size >= PS + 16 {
+                        // accesses that start inside one page and end in the next (reads, and an
+                        // element-wise write of what is there already)
+                        let a = GuestAddress(r.start + PS as u64 - 16);
+                        let mut b = [0u8; 32];
+                        m.read_slice(&mut b, a).map_err(|e| format!("owner {}: region {} page-straddling read: {:?}", oi, rid, e))?;
+                        ensure!(b.iter().all(|x| *x == r.tag), "owner {}: region {} page-straddling read gives {:x?}, tag {:#04x}", oi, rid, b, r.tag);
+                        let vs = m.get_slice(a, 32).map_err(|e| format!("owner {}: region {} get_slice: {:?}", oi, rid, e))?;
+                        let ar = vm_memory::VolatileMemory::get_array_ref::<u32>(&vs, 0, 8).map_err(|e| format!("{:?}", e))?;
+                        ar.copy_from(&[u32::from_ne_bytes([r.tag; 4]); 8]);
+                        let mut back = [0u32; 8];
+                        ar.copy_to(&mut back);
+                        ensure!(back.iter().all(|x| *x == u32::from_ne_bytes([r.tag; 4])), "owner {}: region {} element-wise copy across a page boundary reads {:x?}", oi, rid, back);
+                    }
                     if r.size >= 4 {
                         let v: u32 = m.load(GuestAddress(r.start), std::sync::atomic::Ordering::Relaxed).map_err(|e| format!("owner {}: region {} atomic load: {:?}", oi, rid, e))?;
                         ensure!(v == u32::from_ne_bytes([r.tag; 4]), "owner {}: region {} atomic load reads {:#x}, tag is {:#04x}", oi, rid, v, r.tag);
